@@ -1161,7 +1161,9 @@ impl TcpConnecter {
           }
         } => {
           // If the select is aborted by a system event, we stop trying more IPs.
-          return Err(ZmqError::Internal("Connect aborted by system event.".into()));
+          // "shutdown by" is what the retry loop recognises as final: the socket is closing or the
+          // context terminating, so the connecter must stop rather than count this as a failed attempt.
+          return Err(ZmqError::Internal("Connect aborted: shutdown by system event.".into()));
         }
         connect_outcome_result = connect_future => {
           match connect_outcome_result {
